@@ -515,7 +515,17 @@ func (t *tfunc) call(v *ast.CallExpr, want types.Type) string {
 			}
 			var els []string
 			for _, a := range v.Args[1:] {
-				els = append(els, t.expr(a, st.Elem()))
+				el := t.expr(a, st.Elem())
+				if t.g.leanType(st.Elem()) == "GoInt.Atom" && !isNilIdent(info, a) {
+					if at := t.g.leanType(typeOf(t.pi, a)); at != "GoInt.Atom" {
+						op := t.okey[ifaceKey(at)]
+						if op == nil {
+							t.bad(a, "implicit conversion of a data value to an interface")
+						}
+						el = t.use(op.name) + " " + paren(el)
+					}
+				}
+				els = append(els, el)
 			}
 			return paren(xs) + " ++ [" + strings.Join(els, ", ") + "]"
 		case "make":
